@@ -944,7 +944,7 @@ func seriesRefsOf(x *tsdbhist.Exec, k string) []uint64 {
 			out = append(out, ref)
 		}
 	}
-	return out
+	return append(out, hcmark.SeriesRefsInWAL(x.Dir, k)...)
 }
 
 // otherSeriesSample reports the series (other than k) that accepted a sample with this
